@@ -679,6 +679,16 @@ def d3_table(ctx):
             return symbols_pairing(ctx, site)
         return False, 'not an access to the context / scope stack'
 
+    def nonempty_index0(ctx, site):
+        # contexts[0] / symbols[0]: the global context and the outermost scope of a context always exist (R09.1)
+        fn = site['f']
+        if len(site['term']['args']) != 2:
+            return False, 'not covered'
+        recv, idx = str(sym(fn, site['term']['args'][0])), strip(sym(fn, site['term']['args'][1]))
+        if idx == ('int', 0) and (recv.rstrip("')").endswith("'contexts") or recv.rstrip("')").endswith("'symbols")):
+            return symbols_pairing(ctx, site)
+        return False, 'not covered'
+
     def tag_checked_callers(ctx, site):
         from rules.unsafe_inv import tag_facts, canon, same
         fnpath = site['fn']
@@ -911,6 +921,7 @@ def d3_table(ctx):
         ('<lexer::Tokenizer*', 'index', 'local+R08.3', offset_slice),
         ('lexer::Tokenizer*', 'index', 'local+R08.3', offset_slice),
         ('symbols::*', 'unwrap', 'local+R09.1', nonempty_stack),
+        ('symbols::*', 'index', 'local+R09.1', nonempty_index0),
         ('object::Object::as_f64', 'assert_failed', 'tag-checked callers', tag_checked_callers),
         ('object::Object::as_str', 'assert_failed', 'tag-checked callers', tag_checked_callers),
         ('object::Object::as_string_mut', 'assert_failed', 'tag-checked callers', tag_checked_callers),
